@@ -82,7 +82,7 @@ def gen_run(rng, cfg):
     enabled = [k for k in kinds if rng.random() < 0.6] if faulty else []
     if faulty and not enabled:
         enabled = [rng.choice(kinds)]
-    mix = {"parse": rng.choice([0.5, 0.7, 0.9, 1.0]), "lex": rng.choice([0, 0.1, 0.3]), "gen": rng.choice([0, 0.15, 0.4])}
+    mix = {"parse": rng.choice([0.5, 0.7, 0.9, 1.0]), "lex": rng.choice([0, 0.1, 0.3]), "gen": rng.choice([0, 0.15, 0.4]), "parse_file": rng.choice([0, 0, 0.1, 0.3])}
     size = rng.choice([1, 2, 3, 4, 6, 9])
     depth = rng.choice([1, 2, 2, 3])
     sloppy = rng.choice([0.0, 0.02, 0.1, 0.3])
@@ -154,6 +154,19 @@ def gen_run(rng, cfg):
                     op["reclimit"] = rng.choice([40, 80, 150, 400])
                     op["untraced"] = True
                     dirty_next = True
+        elif kind == "parse_file":
+            op["obj"] = rng.choice(["P0", "P1"])
+            op["filename"] = rng.choice(["vfs/a.c", "vfs/b.c", "vfs/dir/x.c"])
+            op["use_cpp"] = rng.random() < 0.4
+            if op["use_cpp"]:
+                op["cpp_args"] = rng.choice(["", "-Iinc", ["-Iinc", "-DX=1"]])
+            if enabled and rng.random() < fault_rate:
+                kinds_io = ["open-error", "decode-error", "short-read"] if not op["use_cpp"] else ["cpp-missing", "cpp-fails", "short-read"]
+                k = rng.choice(kinds_io)
+                op["io_fault"] = {"kind": k}
+                if k == "short-read":
+                    op["io_fault"]["at"] = rng.randrange(0, max(1, len("\n".join(items))))
+                dirty_next = True
         elif kind == "lex":
             op["filename"] = rng.choice(FILENAMES)
             if rng.random() < 0.3:
@@ -182,6 +195,7 @@ def gen_run(rng, cfg):
         else:  # gen
             op["select"] = [rng.choice(GEN_SELECT), rng.randrange(8), rng.sample(GEN_SELECT[1:10], 3)]
             op["reduce"] = rng.random() < 0.4
+            op["gencls"] = rng.choice(["plain", "plain", "plain", "Upper", "UpperMore"])
             op["filename"] = "g.c"
         op["items"] = items
         if fault is not None:
@@ -207,11 +221,16 @@ def op_key(op):
         "text": "\n".join(op.get("items", [])) if "text" not in op else op["text"],
         "filename": op.get("filename"),
     }
-    if op["op"] == "parse":
+    if op["op"] in ("parse", "parse_file"):
         k["sim"] = op.get("obj", "P1") != "P0"
+    if op["op"] == "parse_file":
+        k["use_cpp"] = bool(op.get("use_cpp"))
+        k["cpp_args"] = op.get("cpp_args")
+        k["io_fault"] = op.get("io_fault")
     if op["op"] == "gen":
         k["select"] = op.get("select")
         k["reduce"] = bool(op.get("reduce"))
+        k["gencls"] = op.get("gencls")
     if op["op"] == "lex":
         k["take"] = op.get("take")
         k["errmode"] = op.get("errmode", "record")
@@ -268,7 +287,7 @@ def judge(spec, result, baselines):
             viols.append({"kind": "history:via-module", "op": i, "detail": "brand-new instance in the used process differs from pristine process", "got": _short(fr), "want": _short(bo)})
         elif not same_outcome(r["out"], bo):
             viols.append({"kind": "history:via-instance", "op": i, "detail": "reused instance differs from brand-new instance", "got": _short(r["out"]), "want": _short(bo), "first_diff": _first_diff(r["out"], bo)})
-        elif op["op"] == "parse" and op.get("obj", "P1") != "P0" and r["out"]["k"] != "rec" and bo["k"] != "rec" and not r.get("fault_fired") and r.get("tokhash") != b.get("tokhash"):
+        elif op["op"] in ("parse", "parse_file") and op.get("obj", "P1") != "P0" and r["out"]["k"] != "rec" and bo["k"] != "rec" and not r.get("fault_fired") and r.get("tokhash") != b.get("tokhash"):
             viols.append({"kind": "history:tokens", "op": i, "detail": "token stream delivered to the parser differs from a brand-new instance", "first_diff": _first_tok_diff(r.get("toklog"), b.get("toklog"))})
         key = op_key(op)
         if key in seen:
@@ -313,12 +332,12 @@ def nontrivial(spec, result):
     dirty = set()
     hit = 0
     for op, r in zip(ops, results):
-        if op["op"] == "parse":
+        if op["op"] in ("parse", "parse_file"):
             obj = op.get("obj", "P1")
         elif op["op"] == "lex":
             obj = "L"
         else:
-            obj = "G" + str(int(bool(op.get("reduce"))))
+            obj = "G" + str(int(bool(op.get("reduce")))) + str(op.get("gencls"))
         k = r["out"]["k"] if r.get("out") else "?"
         if compared(r) and obj in dirty:
             hit += 1
@@ -361,7 +380,7 @@ def probes(spec, result):
             bump("failed_with_open_scopes")
         if k in ("exc", "abort") and post.get("pending"):
             bump("failed_with_pending_pragma_token")
-        if op["op"] == "parse":
+        if op["op"] in ("parse", "parse_file"):
             obj = op.get("obj", "P1")
             key = op_key(op)
             if key in texts:
@@ -409,6 +428,8 @@ def summarise(spec, result, info):
                 fired["recursion"] = fired.get("recursion", 0) + 1
         if op["op"] == "lex" and op.get("take") is not None:
             fired["abandon"] = fired.get("abandon", 0) + 1
+        if op["op"] == "parse_file" and r.get("out", {}).get("k") == "ok":
+            pr["parse_file_ok" + ("_with_cpp_seam" if op.get("use_cpp") else "")] = pr.get("parse_file_ok" + ("_with_cpp_seam" if op.get("use_cpp") else ""), 0) + 1
     return {
         "n_ops": len(ops),
         "n_compared": sum(1 for r in results if compared(r)),
@@ -439,6 +460,8 @@ def sample_view(spec, result):
                 "abort_fault": op.get("fault"),
                 "take": op.get("take"),
                 "select": op.get("select"),
+                "io_fault": op.get("io_fault"),
+                "use_cpp": op.get("use_cpp"),
                 "outcome": o.get("k"),
                 "outcome_text": (o.get("full") or o.get("head") or "")[:160],
                 "abort_probe": r.get("abort_probe"),
